@@ -19,20 +19,23 @@ MANIFEST = dict(
          "every placeholder replaced by its alias-resolved argument, the query holding exactly the non-path scalars, struct fields and map entries "
          "under alias-or-name with nil pointers omitted, the struct argument as body for POST/PUT/PATCH, and the caller's context (C06_request, "
          "C06_query, C06_placeholders — for arbitrary argument texts —, C06_body, C06_ctx, C06_one_request); duplicate aliases are rejected "
-         "(C06_dup_alias_rejected). Two finding regions with witness theorems (both pinned by the rest golden); seven former ones were repaired "
+         "(C06_dup_alias_rejected); when the chain retries, every attempt is that request under the caller's context (C06_attempt, C06_attempt_identity). "
+         "Three finding regions with witness theorems (two pinned by the rest golden); seven former ones were repaired "
          "in /repo and are stated as *_fixed / asserted as WF. Tied to the code (a) by generating clients with the rebuilt `shoot rest` from random interfaces, compiling "
          "them and recording the requests they send through a recording RoundTripper (nil pointers, URL-unsafe strings; url.JoinPath / "
-         "Values.Encode / Header.Add / json.Marshal evaluated by the real functions), (b) by an in-process differential of the recognisers against "
+         "Values.Encode / Header.Add / json.Marshal evaluated by the real functions) — through a plain client, a logging chain, and a chain with "
+         "RetryMiddleware(2, 0) whose base answers 503 / a transport error first: every attempt's verb, URL, query, headers, body, Content-Length and "
+         "context (tag, and Done once the caller cancelled between two attempts) is observed —, (b) by an in-process differential of the recognisers against "
          "the real regexps (verif hook internal/restclient/verif_export.go) on thousands of random and rendered texts.",
     note="Lean kernel + standard axioms. Proved at method level (directives parsed to their meaning -> request); the interface-level glue "
          "(method collection, compile failures) is tied by the correspondence. Known findings: F_ptrDict, F_nilStructDeref (repairs would change "
-         "the committed golden: notes/proposed/REST_REPAIRS.md). Repaired in /repo and asserted as WF / Rejected: F_mixedCtx, F_bodyNoStruct, duplicate "
+         "the committed golden: notes/proposed/REST_REPAIRS.md), F_retryBody (a retried POST/PUT/PATCH has an empty body; golden-neutral repair proposed). Repaired in /repo and asserted as WF / Rejected: F_mixedCtx, F_bodyNoStruct, duplicate "
          "aliases, F_twoDicts, F_qualScalar, F_structElsewhere, F_headerValue, F_pathArgBrace.",
     technique="Lean 4 proof (induction over parameter lists, token lists, Go-map association lists, directive texts) + differential model/implementation "
               "correspondence on generated, compiled and executed clients + in-process regexp differential + regenerated facts tables",
     design="5/C06")
 
-FINDING_REGIONS = ["F_ptrDict", "F_nilStructDeref"]
+FINDING_REGIONS = ["F_ptrDict", "F_nilStructDeref", "F_retryBody"]
 
 
 def make_case(cid, iface, calls):
@@ -365,12 +368,14 @@ def run_cases(ctx, cases):
                     continue
                 else:
                     im[k] = v
-            for pre in ["%s%d" % (p, i) for i in range(len(c["calls"])) for p in ("c", "L")]:
+            for pre in ["%s%d" % (p, i) for i in range(len(c["calls"])) for p in ("c", "L", "R")]:
                 nreq = r["obs"].get(pre + ".nreq")
                 pan = r["obs"].get(pre + ".panic")
+                # through the retry chain: one round trip per unacceptable answer of the script, and the one that is accepted
+                want = str(len(c["calls"][int(pre[1:])]["retry"][0]) + 1) if pre[0] == "R" else "1"
                 if pan is not None:
                     im[pre + ".out"] = "panic" if pan == "nil-deref" and nreq == "0" else "panic:%s nreq=%s" % (pan, nreq)
-                elif nreq == "1":
+                elif nreq == want:
                     im[pre + ".out"] = "sent"
                 else:
                     im[pre + ".out"] = "nreq=%s" % nreq
@@ -405,7 +410,73 @@ def run_cases(ctx, cases):
                 for side in ("model", "spec"):
                     for k in [k for k in m[side] if k.startswith("parse.")]:
                         del m[side][k]
-    return impl, model
+    attempts = attempt_cases(ctx, cases, impl, model)
+    return impl, model, attempts
+
+
+ATT_KEYS = ("verb", "url", "query", "hdr")
+
+
+def attempt_cases(ctx, cases, impl, model):
+    """the same calls through a client whose chain contains RetryMiddleware: one case per call (id <case>.R<i>), one observation set
+    per attempt. Every attempt must be THE request of the call — the verb, URL, query, headers and complete body the model computed
+    for the plain client — under the caller's context (its tag; ended once the caller has cancelled). Which parts hold on which
+    attempt is decided by the Lean side (driver case rest-attempts: Rest.attempt vs Rest.specAttempt, region F_retryBody)."""
+    atts = []
+    for c in cases:
+        m, im = model.get(c["id"]), impl[c["id"]]
+        rkeys = [k for k in im if k[0] == "R" and "a" in k.split(".")[0]]
+        mine = {k: im.pop(k) for k in rkeys}
+        if not m:
+            continue
+        for i, cl in enumerate(c["calls"]):
+            for side in ("model", "spec"):
+                if "c%d.out" % i in m[side]:
+                    m[side]["R%d.out" % i] = m[side]["c%d.out" % i]
+            if im.get("gen") != "ok" or (m["region"] or "WF") in ("Out", "Rejected"):
+                continue
+            if m["model"].get("c%d.out" % i) != "sent" or m["spec"].get("c%d.out" % i) != "sent":
+                continue
+            fails, cancel_after = cl["retry"]
+            ref = {side: {k: m[side].get("c%d.%s" % (i, k)) for k in ATT_KEYS + ("body", "ctx")} for side in ("model", "spec")}
+            aid = "%s.R%d" % (c["id"], i)
+            has_body = ref["model"]["body"] not in (None, "-")
+            has_ctx = ref["model"]["ctx"] not in (None, "background")
+            aim = {}
+            for k, v in mine.items():
+                pre, _, key = k.partition(".")
+                if pre.startswith("R%da" % i) and pre[len("R%da" % i):].isdigit():
+                    if key == "clen" and v.startswith("mismatch:") and v.endswith(",read=0"):
+                        v = "drained"      # Content-Length announces the JSON, nothing is left to read
+                    aim[pre[len("R%d" % i):] + "." + key] = v
+            atts.append({"id": aid, "parent": c["id"], "call": i, "iface": c["iface"], "calls": [cl], "ref": ref, "impl": aim,
+                         "sexp": "(case %s rest-attempts (body %s) (ctx %s) (fails %d) (cancel %d))" % (
+                             aid, "yes" if has_body else "no", "yes" if has_ctx else "no", len(fails), cancel_after),
+                         "key": "attempts|%s|%s|%s|%d|%s" % (cl["m"]["verb"], has_body, has_ctx, cancel_after, fails),
+                         "cmd": c["cmd"], "detail": dict(c.get("detail", {}), call=i, retry_script=fails, cancel_after=cancel_after)})
+    if not atts:
+        return atts
+    amodel = core.model_run(ctx, [a["sexp"] for a in atts])
+    for a in atts:
+        m = amodel.get(a["id"])
+        impl[a["id"]] = a.pop("impl")
+        if not m or "error" in m:
+            continue
+        for side in ("model", "spec"):
+            d, ref, out = m[side], a["ref"][side], {}
+            for k, v in d.items():
+                pre, _, key = k.partition(".")
+                if key == "same":
+                    for rk in ATT_KEYS:
+                        out[pre + "." + rk] = ref[rk] if v == "true" else "not-the-call's"
+                elif key == "body":
+                    out[k] = {"-": "-", "whole": ref["body"], "drained": '""'}[v]
+                    out[pre + ".clen"] = "drained" if v == "drained" else "ok"
+                elif key == "ctx":
+                    out[k] = v.replace("caller", ref["ctx"], 1) if v != "background" else v
+            m[side] = out
+        model[a["id"]] = m
+    return atts
 
 
 def sig(c, region, dk, im, m):
@@ -462,12 +533,15 @@ def features(c):
 def run(ctx, obl):
     res = core.Result()
     cases = gen_cases(ctx)
-    impl, model = run_cases(ctx, cases)
+    impl, model, attempts = run_cases(ctx, cases)
     for c in cases:
         for f in set(features(c)):
             res.hist("features", f)
         res.hist("calls", str(len(c["calls"])))
-    core.compare_cases(ctx, res, cases, impl, model, sig=sig, nontrivial=lambda c, m, im: len(c["calls"]) >= 1 and m["region"] != "Out")
+    for a in attempts:
+        fails, cancel_after = a["calls"][0]["retry"]
+        res.hist("retry-chain", "script=%s cancel-after=%d" % (fails or "-", cancel_after))
+    core.compare_cases(ctx, res, cases + attempts, impl, model, sig=sig, nontrivial=lambda c, m, im: len(c["calls"]) >= 1 and m["region"] != "Out")
     # the recognisers against the real regexps (in-process, verif hooks): random texts + every rendered directive of this run
     docs = []
     for c in cases:
@@ -489,10 +563,14 @@ def run(ctx, obl):
                 "position or absent), each rendered to a package, `shoot rest` run, the client compiled, obtained with shoot.NewRest and pointed at a "
                 "recording RoundTripper; 3-4 argument vectors per method incl. nil pointers and URL-unsafe strings; plus one shaped interface per finding "
                 "region and per verb. The model's symbolic url.JoinPath / Values.Encode / Header.Add are evaluated by the real functions (harness cmd/rtconf ext), "
-                "json.Marshal by the oracle on the same argument. non-trivial = distinct interface+calls with at least one call inside the quantifier")
+                "json.Marshal by the oracle on the same argument. Every call is made three times: plain client, logging chain, and a chain with "
+                "RetryMiddleware(2, 0) whose scripted base fails 0-2 times (503 / transport error; the caller cancels its context after attempt 0 or 1 or never) "
+                "— one further case per call with every attempt's request. non-trivial = distinct interface+calls with at least one call inside the quantifier, "
+                "distinct (verb, body?, ctx?, script, cancel point) for the retry cases")
     res.rule += ("; plus an in-process differential of the five directive recognisers against the real regexps of cook.go on %s random and rendered texts"
                  % res.extra.get("recogniser_strings_compared"))
-    res.assumptions = ["http.Client turns the userinfo of the request URL into a Basic Authorization header (net/http behaviour, applied to the expected header set)",
+    res.assumptions = ["a RoundTripper that answers a request reads its body to the end first (the recording transport does, like http.Transport)",
+                       "http.Client turns the userinfo of the request URL into a Basic Authorization header (net/http behaviour, applied to the expected header set)",
                        "url.JoinPath, url.Values.Encode, http.Header.Add, json.Marshal, fmt %v are the real ones on both sides",
                        "the doc text handed to the recognisers is ast.CommentGroup.Text() of the rendered comment (reconstructed by the renderer)",
                        "base URLs are well-formed absolute URLs; a query string they carry is in canonical (sorted, unescaped) form; userinfo, escaped path characters, IPv6 hosts, doubled/trailing slashes are generated"]
@@ -511,18 +589,19 @@ def replay(ctx, payload):
     # struct references inside parameters were serialised by value: that is all the renderer needs
     calls = [dict(c, m=byname[c["method"]]) for c in d["calls"]]
     c = make_case("replay", iface, calls)
-    impl, model = run_cases(ctx, [c])
-    m = model["replay"]
-    im = impl["replay"]
-    print("case  :", c["sexp"])
+    impl, model, attempts = run_cases(ctx, [c])
     print("shoot :", c["detail"])
-    print("region:", m["region"])
     rc = 0
-    for k in sorted(set(m["spec"]) | set(m["model"]) | set(im)):
-        flag = ""
-        if k in m["spec"] and im.get(k) != m["spec"][k]:
-            flag = "   <-- impl differs from spec"
-            if m["region"] == "WF":
-                rc = 1
-        print("  %-14s impl=%s | model=%s | spec=%s%s" % (k, im.get(k), m["model"].get(k), m["spec"].get(k), flag))
+    for x in [c] + attempts:
+        m = model[x["id"]]
+        im = impl[x["id"]]
+        print("case  :", x["sexp"])
+        print("region:", m["region"])
+        for k in sorted(set(m["spec"]) | set(m["model"]) | set(im)):
+            flag = ""
+            if k in m["spec"] and im.get(k) != m["spec"][k]:
+                flag = "   <-- impl differs from spec"
+                if m["region"] == "WF":
+                    rc = 1
+            print("  %-14s impl=%s | model=%s | spec=%s%s" % (k, im.get(k), m["model"].get(k), m["spec"].get(k), flag))
     return rc
